@@ -267,6 +267,28 @@ theorem basicChallenge_wellformed (cfg : BasicCfg) (hr : NoQ cfg.realm) (hc : No
     unfold basicChallengeFlds
     by_cases hcs : pyUpper cfg.acceptCharset ≠ fallbackCharset <;> simp [hcs, Fld.pair]
 
+/-- "every Basic challenge is well-formed" over all realms `basic_auth` accepts (no double quote) … -/
+def basicChallenge_wellformed_full : Prop :=
+  ∀ (cfg : BasicCfg), cfg.realm.contains '"' = false →
+    ∃ params rest, split1 ' ' (basicChallenge cfg) = some (cs! "Basic", params) ∧
+      parseKeqvList (parseHttpList params) = .ok ((cs! "realm", cfg.realm) :: rest)
+
+/-- … is false as well: a backslash in the realm is pasted unescaped, so a reader resolving quoted-pair gets another
+    realm (`a\b` comes back as `ab`) — finding F26 -/
+theorem basicChallenge_wellformed_full_false : ¬ basicChallenge_wellformed_full := by
+  intro h
+  obtain ⟨params, rest, h1, h2⟩ := h ⟨cs! "a\\b", [], cs! "utf-8"⟩ (by decide)
+  have e : split1 ' ' (basicChallenge ⟨cs! "a\\b", [], cs! "utf-8"⟩) =
+      some (cs! "Basic", cs! "realm=\"a\\b\", charset=\"UTF-8\"") := by decide +kernel
+  rw [e] at h1
+  simp only [Option.some.injEq, Prod.mk.injEq, true_and] at h1
+  subst h1
+  have e2 : parseKeqvList (parseHttpList (cs! "realm=\"a\\b\", charset=\"UTF-8\"")) =
+      .ok [(cs! "realm", cs! "ab"), (cs! "charset", cs! "UTF-8")] := by decide +kernel
+  rw [e2] at h2
+  simp only [Except.ok.injEq, List.cons.injEq, Prod.mk.injEq] at h2
+  exact absurd h2.1.2 (by decide)
+
 /-! ### incoming: `process_headers` -/
 
 theorem processHeader_plain (dec : Str → Option Str) (raw : Str) (h : hasEncMarker (pyStrip raw) = false) :
